@@ -476,6 +476,132 @@ fn check_analyses(seed: u64) -> i32 {
     0
 }
 
+// ------------------------------------------------------------------------------------------------ ROS 2 analyses
+/// least r in [0, limit] with sbf(off + r) >= w(max(r, 1))
+fn scan_sbf(sbf: &dyn Fn(u64) -> u64, off: u64, limit: u64, w: &dyn Fn(u64) -> u64) -> Option<u64> {
+    let mut r = 0u64;
+    while r <= limit { if sbf(off + r) >= w(r.max(1)) { return Some(r); } r += 1; }
+    None
+}
+/// least t with sbf(t) >= demand
+fn st_naive(sbf: &dyn Fn(u64) -> u64, demand: u64) -> u64 { let mut t = 0u64; while sbf(t) < demand { t += 1; } t }
+
+#[derive(Clone, Copy, Debug)]
+struct Cb { t: u64, j: u64, c: u64, rtb: u64, kind: u8, prio: i32 }   // kind: 0 timer, 1 event source, 2 polled unknown prio, 3 polled(prio)
+impl Cb {
+    fn na(&self, x: u64) -> u64 { if x == 0 { 0 } else { ceil_div(x + self.j, self.t) } }
+    fn is_pp(&self) -> bool { self.kind >= 2 }
+    /// number of instances that can interfere given `arrived` and the cap `base` (polling points resp. busy-window arrivals)
+    fn capped(&self, eoc: &Cb, arrived: u64, base: u64) -> u64 {
+        match self.kind {
+            0 | 1 => arrived,
+            2 => arrived.min(base + 1),
+            _ => if eoc.kind == 3 { arrived.min(base + (self.prio < eoc.prio) as u64) } else { arrived.min(base + 1) },
+        }
+    }
+}
+fn ros2_kind(cb: &Cb) -> response_time_analysis::ros2::rr::CallbackType {
+    use response_time_analysis::ros2::rr::CallbackType as K;
+    match cb.kind { 0 => K::Timer, 1 => K::EventSource, 2 => K::PolledUnknownPrio, _ => K::Polled(cb.prio) }
+}
+
+fn check_ros2(seed: u64) -> i32 {
+    use response_time_analysis::ros2;
+    let mut r = Rng(seed ^ 0x2052);
+    for _iter in 0..1200 {
+        // supply
+        let p = 1 + r.below(6); let q = 1 + r.below(p); let dl = q + r.below(p - q + 1);
+        let (sb, pp, qq, dd, sdesc) = supply_case(r.below(3), q, dl, p);
+        let sbf = move |t: u64| sbf_spec(pp, qq, dd, t as u128) as u64;
+        let limit = 1 + r.below(70);
+        // ---------------- rr / bw: callbacks with sporadic arrivals and scalar costs
+        let n = 1 + r.below(3) as usize;
+        let cbs: Vec<Cb> = (0..n).map(|_| { let t = 3 + r.below(9); Cb { t, j: r.below(t + 2), c: 1 + r.below(3), rtb: r.below(12), kind: r.below(4) as u8, prio: r.below(3) as i32 } }).collect();
+        let abs: Vec<Sporadic> = cbs.iter().map(|cb| Sporadic::new(d(cb.t), d(cb.j))).collect();
+        let cms: Vec<Scalar> = cbs.iter().map(|cb| Scalar::new(s(cb.c))).collect();
+        // subchain: one or two distinct callbacks of the workload; the last one is the end of the chain
+        let e = r.below(n as u64) as usize;
+        let first = r.below(n as u64) as usize;
+        let chain: Vec<usize> = if n >= 2 && first != e && r.below(2) == 0 { vec![first, e] } else { vec![e] };
+        let eoc = cbs[e];
+        let npp: u64 = chain.iter().map(|&i| cbs[i].na(cbs[i].rtb)).sum();
+        let desc = format!("{{\"supply\": {}, \"limit\": {}, \"callbacks(t,j,c,rtb,kind,prio)\": {:?}, \"subchain\": {:?}}}", sdesc, limit,
+                           cbs.iter().map(|c| (c.t, c.j, c.c, c.rtb, c.kind, c.prio)).collect::<Vec<_>>(), chain);
+        macro_rules! cmp { ($name:expr, $got:expr, $exp:expr) => {{
+            let got = view(&guarded(|| $got)); let exp = $exp;
+            if got != Ok(exp) { return fail($name, desc.clone(), format!("{:?}", got), format!("{:?}", exp)); }
+        }}}
+        {
+            let wl: Vec<_> = (0..n).map(|i| ros2::rr::Callback::new(d(cbs[i].rtb), &abs[i], &cms[i], ros2_kind(&cbs[i]))).collect();
+            let sc: Vec<&ros2::rr::Callback<Sporadic, Scalar>> = chain.iter().map(|&i| &wl[i]).collect();
+            let exp = (|| {
+                let w = |x: u64| 1 + (0..n).filter(|&i| i != e).map(|i| { let cb = &cbs[i]; cb.c * cb.capped(&eoc, cb.na((x + cb.rtb).saturating_sub(1)), npp) }).sum::<u64>()
+                                   + eoc.c * eoc.na((x + eoc.rtb).saturating_sub(1)).saturating_sub(1);
+                let s_star = scan_sbf(&sbf, 0, limit, &w)?;
+                Some(st_naive(&sbf, sbf(s_star).saturating_sub(1) + eoc.c))
+            })();
+            cmp!("ros2::rr::rta_subchain", ros2::rr::rta_subchain(&*sb, &wl, &sc, d(limit)), exp);
+        }
+        {
+            let wl: Vec<_> = (0..n).map(|i| ros2::bw::Callback::new(d(cbs[i].rtb), &abs[i], &cms[i], ros2_kind(&cbs[i]))).collect();
+            let sc: Vec<&ros2::bw::Callback<Sporadic, Scalar>> = chain.iter().map(|&i| &wl[i]).collect();
+            let exp = (|| {
+                let intf = |delta: u64, act: u64| (0..n).filter(|&i| i != e).map(|i| { let cb = &cbs[i]; cb.c * cb.capped(&eoc, cb.na(delta), cb.na(act) + npp) }).sum::<u64>();
+                let max_offset = scan_sbf(&sbf, 0, limit, &|ta| 1 + intf(ta, ta) + eoc.c * eoc.na(ta))?;
+                let mut best = 0u64;
+                for a in 0..max_offset {
+                    let is_step = (0..n).any(|i| if i == e { cbs[i].na(a) != cbs[i].na(a + 1) } else { cbs[i].is_pp() && a > 0 && cbs[i].na(a - 1) != cbs[i].na(a) });
+                    if !is_step { continue; }
+                    let si = eoc.c * eoc.na(a + 1).saturating_sub(1);
+                    let s_star = scan_sbf(&sbf, 0, limit, &|x| 1 + intf(x, a) + si)?;
+                    let f_star = st_naive(&sbf, sbf(s_star).saturating_sub(1) + eoc.c);
+                    best = best.max(if chain.len() == 1 { f_star.saturating_sub(a) } else { f_star });
+                }
+                Some(best)
+            })();
+            cmp!("ros2::bw::rta_subchain", ros2::bw::rta_subchain(&*sb, &wl, &sc, d(limit)), exp);
+        }
+        // ---------------- ECRTS'19: request-bound functions of sporadic tasks
+        let mk = |r: &mut Rng, k: usize| -> Vec<(u64, u64, u64)> { (0..k).map(|_| { let t = 3 + r.below(9); (t, r.below(t + 2), 1 + r.below(3)) }).collect() };
+        let own = mk(&mut r, 1)[0];
+        let k_other = r.below(3) as usize; let others = mk(&mut r, k_other);
+        let k_pre = r.below(3) as usize; let prefix = mk(&mut r, k_pre);
+        let b = r.below(4);
+        let rbf1 = |x: &(u64, u64, u64), dl: u64| if dl == 0 { 0 } else { x.2 * ceil_div(dl + x.1, x.0) };
+        let sum = |v: &Vec<(u64, u64, u64)>, dl: u64| v.iter().map(|x| rbf1(x, dl)).sum::<u64>();
+        let lw_own = |dl: u64| if rbf1(&own, dl) > 0 { own.2 } else { 0 };
+        let to_rbf = |x: &(u64, u64, u64)| RBF::new(Sporadic::new(d(x.0), d(x.1)), Scalar::new(s(x.2)));
+        let own_rbf = to_rbf(&own);
+        let other_rbfs: Vec<_> = others.iter().map(to_rbf).collect();
+        let prefix_rbfs: Vec<_> = prefix.iter().map(to_rbf).collect();
+        let mut full_rbfs = prefix_rbfs.clone(); full_rbfs.push(own_rbf.clone());
+        let mut full = prefix.clone(); full.push(own);
+        let desc = format!("{{\"supply\": {}, \"limit\": {}, \"own(t,j,c)\": {:?}, \"interfering\": {:?}, \"chain_prefix\": {:?}, \"blocking\": {}}}", sdesc, limit, own, others, prefix, b);
+        // generic evaluator: busy window, then every demand step offset <= max_bw
+        let ecrts = |dem: &dyn Fn(u64) -> u64, wb: &dyn Fn(u64) -> u64, w2: &dyn Fn(u64, u64) -> u64| -> Option<u64> {
+            let max_bw = scan_sbf(&sbf, 0, limit, wb)?;
+            let mut best = 0u64;
+            for a in 0..=max_bw {
+                if !(dem(a) < dem(a + 1)) { continue; }
+                best = best.max(scan_sbf(&sbf, a, limit, &|x| w2(a, x))?);
+            }
+            Some(best)
+        };
+        let intf_iv = |a: u64, resp: u64| { let w = lw_own(a + resp); if resp > w { a + resp - w + 1 } else { a + 1 } };
+        let all: Vec<(u64, u64, u64)> = { let mut v = others.clone(); v.push(own); v };
+        let all_rbfs: Vec<_> = all.iter().map(to_rbf).collect();
+        cmp!("ros2::rta_event_source", ros2::rta_event_source(&*sb, &demand::Slice::of(&all_rbfs), d(limit)),
+             ecrts(&|x| sum(&all, x), &|x| sum(&all, x), &|a, _| sum(&all, a + 1)));
+        cmp!("ros2::rta_timer", ros2::rta_timer(&*sb, &own_rbf, &demand::Slice::of(&other_rbfs), s(b), d(limit)),
+             ecrts(&|x| rbf1(&own, x), &|x| rbf1(&own, x) + b + sum(&others, x), &|a, x| rbf1(&own, a + 1) + sum(&others, intf_iv(a, x)) + b));
+        cmp!("ros2::rta_polling_point_callback", ros2::rta_polling_point_callback(&*sb, &own_rbf, &demand::Slice::of(&other_rbfs), d(limit)),
+             ecrts(&|x| rbf1(&own, x), &|x| rbf1(&own, x) + sum(&others, x), &|a, x| rbf1(&own, a + 1) + sum(&others, intf_iv(a, x))));
+        cmp!("ros2::rta_processing_chain", ros2::rta_processing_chain(&*sb, &own_rbf, &demand::Slice::of(&prefix_rbfs), &demand::Slice::of(&full_rbfs), &demand::Slice::of(&other_rbfs), d(limit)),
+             ecrts(&|x| sum(&full, x), &|x| sum(&full, x) + sum(&others, x), &|a, x| rbf1(&own, a + 1) + sum(&prefix, intf_iv(a, x)) + sum(&others, intf_iv(a, x))));
+    }
+    0
+}
+
 pub fn search(obligation: &str, seed: u64) -> i32 {
     let o = obligation;
     let mut ran = false;
@@ -483,13 +609,14 @@ pub fn search(obligation: &str, seed: u64) -> i32 {
     let mut rc = 0;
     if let Some(cat) = o.strip_prefix("cat:") {
         rc = match cat { "supply" => run(check_supply), "fixed_point" => run(check_fixed_point), "arrival" => run(check_arrival), "steps" => run(check_steps),
-                         "wcet_demand" => run(check_wcet_demand), "analyses" => run(check_analyses), _ => 3 };
+                         "wcet_demand" => run(check_wcet_demand), "analyses" => run(check_analyses), "ros2" => run(check_ros2), _ => 3 };
     }
     else if o.contains("src/arrival/steps") || o.contains("src/arrival/dmin") || o.contains("arrival_curve_prefix") { rc = run(check_steps); }
     else if o.contains("src/supply/") { rc = run(check_supply); if rc == 0 { rc = run(check_fixed_point); } }
     else if o.contains("src/fixed_point.rs") || o.contains("src/time.rs") { rc = run(check_fixed_point); if rc == 0 { rc = run(check_analyses); } }
     else if o.contains("src/arrival/") { rc = run(check_arrival); }
     else if o.contains("src/wcet/") || o.contains("src/demand/") { rc = run(check_wcet_demand); }
+    else if o.contains("src/ros2/") { rc = run(check_ros2); }
     else if o.contains("src/fixed_priority/") || o.contains("src/fifo/") || o.contains("src/edf/") { rc = run(check_analyses); }
     if !ran { return 3; }
     if rc == 0 { println!("mirror domain exhausted without a failing input"); }
@@ -504,6 +631,7 @@ pub fn replay(json: &str) -> i32 {
         else if mirror.starts_with("arrival::") { Some(check_arrival) }
         else if mirror.starts_with("steps::") || mirror.starts_with("conv::") { Some(check_steps) }
         else if mirror.starts_with("wcet::") || mirror.starts_with("demand::") { Some(check_wcet_demand) }
+        else if mirror.starts_with("ros2::") { Some(check_ros2) }
         else if mirror.contains("dedicated_uniproc_rta") { Some(check_analyses) } else { None };
     let seed = json.split("\"seed\": ").nth(1).and_then(|x| x.trim_end_matches('}').trim().parse().ok()).unwrap_or(0);
     match f { Some(f) => f(seed), None => 2 }
